@@ -563,7 +563,14 @@ impl DoviRpu {
     fn convert_to_p84(&mut self) {
         self.convert_to_p81();
 
+        // The DM data is kept as is: its presence and compressed form must still be signaled
+        let vdr_dm_metadata_present_flag = self.header.vdr_dm_metadata_present_flag;
+        let reserved_zero_3bits = self.header.reserved_zero_3bits;
+
         self.header = RpuDataHeader::p8_default();
+        self.header.vdr_dm_metadata_present_flag = vdr_dm_metadata_present_flag;
+        self.header.reserved_zero_3bits = reserved_zero_3bits;
+
         self.rpu_data_mapping = Some(Profile84::rpu_data_mapping());
     }
 
